@@ -11,7 +11,7 @@ import struct
 
 import numpy as np
 
-from common import validate_events, to_words, Infra, isolated_many
+from common import run_tlc, validate_events, to_words, Infra, isolated_many
 from lib import Lib, Buf, MASK_NONE, MASK_GENERIC
 import kernels
 
@@ -190,6 +190,12 @@ def run(chk, replay=None):
     Lib.get()
     chk.assumptions += ["exact .5 ties accept either neighbouring integer", "divisors are powers of two (the constructors reject others)",
                         "reim_from_znx32/tnx32/to_tnx32 kernels are NOT_IMPLEMENTED stubs: no in-domain call, not driven"]
+    # the mantissa tricks of the accelerated kernels, in a toy format with a P-bit significand, exhaustively
+    for P in ([8] if quick else [7, 8, 9, 10, 11]):
+        rt = run_tlc("ToyFloat", "ToyFloat_%d.cfg" % P, workers=1, timeout=2400)
+        chk.add_tlc(rt, "ToyFloat P=%d: to_znx64 bnd50, from_znx64 bnd50, to_tnx tricks over every toy value of the window" % P)
+        if not rt.ok:
+            raise RuntimeError("ToyFloat P=%d failed: %s" % (P, rt.out[-600:]))
     ms = [1, 2, 4, 8, 16, 64] if quick else [1, 2, 4, 8, 16, 32, 64, 256, 1024]
     jobs = [("numeric conversions m=%s" % ms[i::6], drive, (i, ms[i::6], quick)) for i in range(6) if ms[i::6]]
     res = isolated_many(chk, jobs, timeout=2400, nproc=6)
